@@ -10,9 +10,40 @@ import (
 // reach computes the in-module functions reachable from roots through explicitly resolved calls:
 // static callees, closures, in-module implementations of interface invokes, and the bound dynamic sites.
 // dyn maps a function to the callees of its unresolved dynamic call sites.
-func reach(t *Tree, roots []*ssa.Function, dyn map[*ssa.Function][]*ssa.Function) (map[*ssa.Function]bool, []string) {
+// dynSite is a dynamic call site that reach could not bind to callees.
+type dynSite struct {
+	Fn *ssa.Function
+	In ssa.Instruction
+}
+
+func (d dynSite) key(t *Tree) string { return relName(d.Fn) + " at " + t.Pos(d.In.Pos()) }
+
+// globalFuncTargets resolves a call through a package-level func variable (AstOp = func…): the function values
+// ever stored to that variable anywhere in the module.
+func globalFuncTargets(t *Tree, g *ssa.Global) []*ssa.Function {
+	var out []*ssa.Function
+	for _, pp := range sortedKeys(t.SSA) {
+		for _, f := range t.PkgFuncs(pp) {
+			allInstrs(f, func(in ssa.Instruction) {
+				if s, ok := in.(*ssa.Store); ok && s.Addr == ssa.Value(g) {
+					switch v := s.Val.(type) {
+					case *ssa.Function:
+						out = append(out, v)
+					case *ssa.MakeClosure:
+						if fn, ok := v.Fn.(*ssa.Function); ok {
+							out = append(out, fn)
+						}
+					}
+				}
+			})
+		}
+	}
+	return out
+}
+
+func reach(t *Tree, roots []*ssa.Function, dyn map[*ssa.Function][]*ssa.Function) (map[*ssa.Function]bool, []dynSite) {
 	seen := map[*ssa.Function]bool{}
-	var unresolved []string
+	var unresolved []dynSite
 	work := append([]*ssa.Function{}, roots...)
 	for len(work) > 0 {
 		f := work[len(work)-1]
@@ -57,7 +88,15 @@ func reach(t *Tree, roots []*ssa.Function, dyn map[*ssa.Function][]*ssa.Function
 				work = append(work, d...)
 				return
 			}
-			unresolved = append(unresolved, relName(f)+" at "+t.Pos(in.Pos()))
+			if u, ok := cc.Value.(*ssa.UnOp); ok {
+				if g, ok := u.X.(*ssa.Global); ok {
+					if tg := globalFuncTargets(t, g); len(tg) > 0 {
+						work = append(work, tg...)
+						return
+					}
+				}
+			}
+			unresolved = append(unresolved, dynSite{f, in})
 		})
 	}
 	return seen, unresolved
@@ -122,7 +161,7 @@ func runScope(t *Tree) map[*ssa.Function]bool {
 }
 
 // runScopeUnresolved lists dynamic call sites in the v1 run scope that could not be bound.
-func runScopeUnresolved(t *Tree) []string {
+func runScopeUnresolved(t *Tree) []dynSite {
 	runners, _ := registryMaps(t)
 	var rs []*ssa.Function
 	for _, k := range sortedKeys(runners) {
@@ -139,7 +178,7 @@ func runScopeUnresolved(t *Tree) []string {
 }
 
 // v2Scope: everything reachable from (*runtimev2.Script).Run.
-func v2Scope(t *Tree) (map[*ssa.Function]bool, []string) {
+func v2Scope(t *Tree) (map[*ssa.Function]bool, []dynSite) {
 	roots := []*ssa.Function{t.Method(pRT2, "Script", "Run")}
 	for _, f := range t.PkgFuncs(pRT2) {
 		if strings.HasPrefix(f.Name(), "GetParam") {
@@ -167,7 +206,7 @@ func checkScope(t *Tree) map[*ssa.Function]bool {
 }
 
 // parseScope: everything reachable from parser.ParsePipeline, with l.state(l) bound to the state functions.
-func parseScope(t *Tree) (map[*ssa.Function]bool, []string) {
+func parseScope(t *Tree) (map[*ssa.Function]bool, []dynSite) {
 	pp := t.SSA[pParser]
 	var states []*ssa.Function
 	for _, f := range t.PkgFuncs(pParser) {
@@ -180,5 +219,31 @@ func parseScope(t *Tree) (map[*ssa.Function]bool, []string) {
 		dyn[f] = states
 	}
 	roots := []*ssa.Function{pp.Func("ParsePipeline")}
+	return reach(t, roots, dyn)
+}
+
+// loadScope: everything reachable from the load entry points (ParseScript, ParseV2, the linker), with the
+// registered checkers bound to the v1 dynamic check call and the lexer state functions bound to NextItem.
+func loadScope(t *Tree) (map[*ssa.Function]bool, []dynSite) {
+	_, chk := registryMaps(t)
+	var cs []*ssa.Function
+	for _, k := range sortedKeys(chk) {
+		cs = append(cs, chk[k])
+	}
+	var states []*ssa.Function
+	for _, f := range t.PkgFuncs(pParser) {
+		if f.Signature.Recv() == nil && f.Signature.Results().Len() == 1 && strings.HasSuffix(f.Signature.Results().At(0).Type().String(), "parser.stateFn") {
+			states = append(states, f)
+		}
+	}
+	dyn := map[*ssa.Function][]*ssa.Function{}
+	if f := t.Func(pRT, "RunCallExprCheck"); f != nil {
+		dyn[f] = cs
+	}
+	if f := t.Method(pParser, "Lexer", "NextItem"); f != nil {
+		dyn[f] = states
+	}
+	roots := []*ssa.Function{t.Func(pEngine, "ParseScript"), t.Func(pEngine, "ParseV2"), t.Func(pEngine, "EngineCallRefLinkAndCheck"), t.Func(pRT2, "CheckPassParam"), t.Func(pRT2, "CheckFnParamDef")}
+	roots = append(roots, cs...)
 	return reach(t, roots, dyn)
 }
